@@ -25,7 +25,7 @@ import tempfile
 import zipfile
 
 from vmon.core import Result
-from vmon.models.c19_apps import FAILS, WRITERS, targets_for
+from vmon.models.c19_apps import APP_WRITERS, FAILS, WRITERS, failpoints_for, targets_for
 
 ID = "C19"
 LEVEL = "fault_enumeration"
@@ -128,6 +128,16 @@ def gen_cases(rng, tier):
                 continue
             for dd in ("empty", "nonempty"):
                 fail_ops.append({"writer": w, "target": t, "destdir": dd, "injector": "none"})
+    # the formatter / serialiser the write route calls raises (harness failpoint), every writer route
+    fp_ops = []
+    for w in writers:
+        for t in targets_for(w):
+            for pre in (True, False):
+                for fp in failpoints_for(w):
+                    fp_ops.append({"writer": w, "target": t, "pre": pre, "failpoint": fp, "injector": "none"})
+    for a in sorted(APP_WRITERS):
+        for pre in (True, False):
+            fp_ops.append({"app": a, "pre": pre, "failpoint": "formatter", "injector": "none"})
     cases = []
     rng.shuffle(audit_ops)
     rng.shuffle(strace_ops)
@@ -135,7 +145,8 @@ def gen_cases(rng, tier):
         cases.append({"kind": "inject", "ops": ch})
     for ch in _chunks(strace_ops, 2 if tier == "quick" else 3):
         cases.append({"kind": "inject", "ops": ch})
-    for ch in _chunks(fail_ops, 40):
+    plain_ops = fail_ops + fp_ops  # un-faulted single runs: cheap, so large batches (one library import each)
+    for ch in _chunks(plain_ops, 130 if tier == "quick" else 200):
         cases.append({"kind": "inject", "ops": ch})
     # resume
     maxn = 4 if tier == "quick" else 8
@@ -431,13 +442,15 @@ def strace_phases(calls, dest):
 
 
 def _family(desc):
+    if desc.get("app"):
+        return "appwriter"
     if desc.get("fail"):
         return FAILS[desc["fail"]]
     return WRITERS[desc["writer"]][0]
 
 
 def _label(desc):
-    return desc.get("writer") or desc.get("fail")
+    return desc.get("writer") or desc.get("fail") or desc.get("app")
 
 
 def decide_op(res, r, blobs):
@@ -454,6 +467,34 @@ def decide_op(res, r, blobs):
     if rep is None or clean["status"] != {"exit": 0}:
         raise RuntimeError(f"clean run of {desc} ended abnormally: {clean['status']}")
     after = clean["after"]
+
+    if desc.get("failpoint"):
+        # the formatter the write route calls raised: the original exception reaches the caller (a writer app reports
+        # a NotCompleted instead), and the complete directory listing, with every file's bytes, is what it was
+        res.evals += 1
+        res.count("formatter-failpoint:cases")
+        res.count(f"formatter-failpoint:{fam}")
+        target = desc.get("target", "store")
+        res.sig("formatter-failpoint", _label(desc), target, bool(desc.get("pre")), desc["failpoint"])
+        before = r["before"]
+        exc = rep["exc"] or {}
+        if exc.get("type") == "FailpointNotReached":
+            raise RuntimeError(f"failpoint not reached: {exc.get('msg')}")
+        if rep["returned"]:
+            res.witness(f"C19/formatter-failpoint/{fam}/write-reported-success", entries_after=sorted(after), **base_detail)
+            return
+        want = "ReportedNotCompleted" if desc.get("app") else "FailpointError"
+        if exc.get("type") != want:
+            res.witness(f"C19/formatter-failpoint/{fam}/exception-replaced", exception=exc, expected=want, **base_detail)
+        changed = sorted(k for k in before if k in after and after[k] != before[k])
+        gone = sorted(k for k in before if k not in after)
+        new = sorted(k for k in after if k not in before)
+        if changed or gone:
+            res.witness(f"C19/formatter-failpoint/{fam}/{'destination-lost' if case.dest in gone else 'existing-entries-changed'}",
+                        exception=exc, changed=changed, removed=gone, **base_detail)  # fmt: skip
+        if new:
+            res.witness(f"C19/formatter-failpoint/{fam}/temp-left-behind", exception=exc, left_behind=new, **base_detail)
+        return
 
     if desc.get("destdir"):
         # the destination path is an existing directory: the write cannot complete, so it is a handled failure:
@@ -925,6 +966,9 @@ def required(counters, tier):
     need("resume:reuse-object-mode-w", 2)
     need("resume:reuse-object-mode-a", 2)
     need("dest-is-directory:cases", 10)
+    need("formatter-failpoint:cases", 100)
+    for fam in FAMILIES + ["appwriter"]:
+        need(f"formatter-failpoint:{fam}", 2)
     need("two-fault:delivered:audit:error", 10)
     need("two-fault:delivered:audit:kill", 10)
     need("two-fault:delivered:strace:error", 10)
